@@ -149,6 +149,7 @@ func main() {
 	})
 	runReal(r)
 	runPlugins(r)
+	cliStage(r)
 	r.Finish()
 }
 
